@@ -71,6 +71,36 @@ class Model:
         s = b"".join(out).decode('utf-8', 'replace')
         return s[:-1] if s.endswith("\n") else s
 
+    def run_timeout(self, toks, timeout):
+        """one case with a wall-clock budget; the process is killed on overrun"""
+        import select
+        if self.p is None or self.p.poll() is not None:
+            self.start()
+        try:
+            self.p.stdin.write((" ".join(toks) + "\n").encode())
+            self.p.stdin.flush()
+        except BrokenPipeError:
+            self.p = None
+            return "MODEL-CRASH"
+        buf = b""
+        deadline = time.time() + timeout
+        fd = self.p.stdout.fileno()
+        while True:
+            left = deadline - time.time()
+            if left <= 0:
+                self.p.kill(); self.p = None
+                return "MODEL-TIMEOUT"
+            r, _, _ = select.select([fd], [], [], left)
+            if not r:
+                continue
+            chunk = os.read(fd, 1 << 16)
+            if not chunk:
+                self.p = None
+                return "MODEL-CRASH\n" + buf.decode('utf-8', 'replace')
+            buf += chunk
+            if buf.endswith(b"\n=== END\n"):
+                return buf[:-len(b"\n=== END\n")].decode('utf-8', 'replace')
+
     def run_many(self, cases):
         """batch: write all cases, read all answers (much faster than ping-pong)"""
         if not cases:
